@@ -57,6 +57,9 @@ func firstAction(body *ast.BlockStmt, local map[string]*ast.FuncDecl, depth int)
 			if strings.HasSuffix(cs, ".wg.Done()") || strings.HasPrefix(cs, "log.") || cs == "recover()" {
 				return true
 			}
+			if cs == "close()" && len(c.Args) == 1 && strings.HasSuffix(callString(c.Args[0]), ".done") {
+				return true // bookkeeping: the goroutine announces its return
+			}
 			out = actionOf(c, local, depth)
 			return false
 		}
@@ -93,6 +96,16 @@ func goTracking(repo, rel string) ([]string, error) {
 			local[fd.Name.Name] = fd
 		}
 	}
+	// does the file's Stop method wait for a `done` channel (`<-x.done`)?
+	stopWaitsDone := false
+	if sd, ok := local["Stop"]; ok {
+		ast.Inspect(sd.Body, func(n ast.Node) bool {
+			if u, ok := n.(*ast.UnaryExpr); ok && u.Op == token.ARROW && strings.HasSuffix(callString(u.X), ".done") {
+				stopWaitsDone = true
+			}
+			return true
+		})
+	}
 	out := []string{}
 	for _, d := range f.Decls {
 		fd, ok := d.(*ast.FuncDecl)
@@ -104,6 +117,18 @@ func goTracking(repo, rel string) ([]string, error) {
 			for i, s := range list {
 				if g, ok := s.(*ast.GoStmt); ok {
 					tracked := "untracked"
+					// a goroutine that closes a `done` channel when it returns, which the file's Stop receives from
+					var gb *ast.BlockStmt
+					if fl, ok := g.Call.Fun.(*ast.FuncLit); ok {
+						gb = fl.Body
+					} else if fd, ok := local[chainName(g.Call)]; ok {
+						gb = fd.Body
+					}
+					if gb != nil && len(gb.List) > 0 && stopWaitsDone {
+						if ds, ok := gb.List[0].(*ast.DeferStmt); ok && callString(ds.Call) == "close()" && len(ds.Call.Args) == 1 && strings.HasSuffix(callString(ds.Call.Args[0]), ".done") {
+							tracked = "tracked"
+						}
+					}
 					if i > 0 {
 						if es, ok := list[i-1].(*ast.ExprStmt); ok && strings.HasSuffix(callString(es.X), ".wg.Add()") {
 							// the goroutine's body: a literal, or a function/method of this file started by name
@@ -151,7 +176,8 @@ func goTracking(repo, rel string) ([]string, error) {
 
 func lifecycleFacts(repo string) (interface{}, error) {
 	res := map[string]interface{}{}
-	for _, rel := range []string{"frontend/udp/frontend.go", "frontend/http/frontend.go", "storage/memory/peer_store.go", "storage/redis/peer_store.go"} {
+	for _, rel := range []string{"frontend/udp/frontend.go", "frontend/http/frontend.go", "storage/memory/peer_store.go", "storage/redis/peer_store.go",
+		"pkg/metrics/server.go", "middleware/jwt/jwt.go"} {
 		g, err := goTracking(repo, rel)
 		if err != nil {
 			return nil, err
